@@ -40,6 +40,9 @@ pub fn clients() -> Vec<Client> {
 }
 
 struct Canaries {
+    refused: std::net::SocketAddr,
+    timeout: std::net::SocketAddr,
+    _keep: Vec<std::net::TcpStream>,
     tcp_a: std::net::SocketAddr,
     tcp_b: std::net::SocketAddr,
     udp: std::net::SocketAddr,
@@ -81,12 +84,39 @@ async fn canaries() -> Canaries {
             }
         }
     });
-    Canaries { tcp_a: addrs[0], tcp_b: addrs[1], udp, tcp_count, udp_count }
+    // a port nobody listens on
+    let refused = {
+        let l = std::net::TcpListener::bind("127.0.0.1:0").unwrap();
+        l.local_addr().unwrap()
+    };
+    // a listener whose accept queue is full: further connection attempts get no answer
+    let (timeout, keep) = unsafe {
+        use std::os::unix::io::FromRawFd;
+        let fd = libc::socket(libc::AF_INET, libc::SOCK_STREAM, 0);
+        let mut sa: libc::sockaddr_in = std::mem::zeroed();
+        sa.sin_family = libc::AF_INET as u16;
+        sa.sin_addr.s_addr = u32::from_ne_bytes([127, 0, 0, 1]);
+        libc::bind(fd, &sa as *const _ as *const libc::sockaddr, std::mem::size_of::<libc::sockaddr_in>() as u32);
+        libc::listen(fd, 0);
+        let l = std::net::TcpListener::from_raw_fd(fd);
+        let a = l.local_addr().unwrap();
+        let mut keep = vec![];
+        for _ in 0..2 {
+            if let Ok(c) = std::net::TcpStream::connect_timeout(&a, Duration::from_millis(100)) {
+                keep.push(c);
+            }
+        }
+        std::mem::forget(l);
+        (a, keep)
+    };
+    Canaries { refused, timeout, _keep: keep, tcp_a: addrs[0], tcp_b: addrs[1], udp, tcp_count, udp_count }
 }
 
 fn subst(b: &[u8], c: &Canaries) -> Vec<u8> {
     let s = String::from_utf8_lossy(b).to_string();
     s.replace("@A", &c.tcp_a.to_string())
+        .replace("@R", &c.refused.to_string())
+        .replace("@T", &c.timeout.to_string())
         .replace("@B", &format!("localhost:{}", c.tcp_b.port()))
         .replace("@U", &c.udp.to_string())
         .into_bytes()
@@ -110,7 +140,7 @@ fn method_of(kind: u128) -> &'static str {
     }
 }
 
-fn classify(status: u16, headers: &[(String, Vec<u8>)]) -> (u128, u128, u128) {
+fn classify(status: u16, headers: &[(String, Vec<u8>)]) -> (u128, u128, u128, u128) {
     let challenge = headers
         .iter()
         .any(|(n, v)| n.eq_ignore_ascii_case("proxy-authenticate") && v.starts_with(b"Basic realm=")) as u128;
@@ -119,7 +149,8 @@ fn classify(status: u16, headers: &[(String, Vec<u8>)]) -> (u128, u128, u128) {
         .find(|(n, _)| n.eq_ignore_ascii_case("x-warning"))
         .map(|(_, v)| String::from_utf8_lossy(v).chars().take_while(|c| c.is_ascii_digit()).collect::<String>().parse::<u128>().unwrap_or(0))
         .unwrap_or(0);
-    (status as u128, challenge, warn)
+    let names_host = headers.iter().any(|(n, v)| n.eq_ignore_ascii_case("x-adguard-vpn-error") && !v.is_empty()) as u128;
+    (status as u128, challenge, warn, names_host)
 }
 
 struct Req {
@@ -129,7 +160,7 @@ struct Req {
     payload: Vec<u8>,
 }
 
-async fn h1_one(ctx: &Ctx, sni: Option<String>, r: &Req, c: &Canaries) -> (u128, u128, u128, u128) {
+async fn h1_one(ctx: &Ctx, sni: Option<String>, r: &Req, c: &Canaries) -> (u128, u128, u128, u128, u128) {
     let (mut client, server) = tokio::io::duplex(1 << 16);
     let ctx2 = ctx.clone();
     let task = tokio::spawn(async move {
@@ -200,10 +231,10 @@ async fn h1_one(ctx: &Ctx, sni: Option<String>, r: &Req, c: &Canaries) -> (u128,
     let _ = tokio::time::timeout(Duration::from_millis(300), task).await;
     match parsed {
         Some((s, hs)) => {
-            let (a, b, w) = classify(s, &hs);
-            (a, b, w, responses)
+            let (a, b, w, nh) = classify(s, &hs);
+            (a, b, w, nh, responses)
         }
-        None => (0, 0, 0, 0),
+        None => (0, 0, 0, 0, 0),
     }
 }
 
@@ -216,7 +247,23 @@ pub fn session(toks: Vec<Tok>) -> Vec<Tok> {
             1 => Some(Arc::new(RegistryBasedAuthenticator::new(&clients()))),
             _ => Some(Arc::new(Custom(RegistryBasedAuthenticator::new(&clients())))),
         };
-        let ctx = crate::ctxutil::simple_ctx(&crate::ctxutil::Opts { allow_private: cfg[3] == 1, ipv6_available: true }, auth);
+        let ctx = {
+            use trusttunnel::settings::{Http1Settings, Http2Settings, ListenProtocolSettings, Settings};
+            let settings = Settings::builder()
+                .listen_address("127.0.0.1:1")
+                .unwrap()
+                .listen_protocols(ListenProtocolSettings {
+                    http1: Some(Http1Settings::builder().build()),
+                    http2: Some(Http2Settings::builder().build()),
+                    quic: None,
+                })
+                .allow_private_network_connections(cfg[3] == 1)
+                .ipv6_available(true)
+                .connection_establishment_timeout(Duration::from_millis(400))
+                .build()
+                .unwrap();
+            trusttunnel::verif::ctx::make(settings, crate::ctxutil::basic_hosts(), auth).unwrap()
+        };
         let sni = match cfg[2] {
             0 => None,
             1 => Some("snicreds".to_string()),
@@ -243,9 +290,9 @@ pub fn session(toks: Vec<Tok>) -> Vec<Tok> {
             for r in &reqs {
                 let t0 = c.tcp_count.load(Ordering::SeqCst);
                 let u0 = c.udp_count.load(Ordering::SeqCst);
-                let (s, ch, w, n) = h1_one(&ctx, sni.clone(), r, &c).await;
+                let (s, ch, w, nh, n) = h1_one(&ctx, sni.clone(), r, &c).await;
                 tokio::time::sleep(Duration::from_millis(40)).await;
-                out.push(vec![s, ch, w, (c.tcp_count.load(Ordering::SeqCst) - t0) as u128, (c.udp_count.load(Ordering::SeqCst) - u0) as u128, n]);
+                out.push(vec![s, ch, w, (c.tcp_count.load(Ordering::SeqCst) - t0) as u128, (c.udp_count.load(Ordering::SeqCst) - u0) as u128, nh, n]);
             }
         } else {
             out = h2_session(&ctx, sni, &reqs, &c).await;
@@ -267,7 +314,7 @@ async fn h2_session(ctx: &Ctx, sni: Option<String>, reqs: &[Req], c: &Canaries) 
         _ => {
             // the endpoint refused the connection (e.g. SNI credentials rejected): nothing is answered
             for _ in reqs {
-                out.push(vec![0, 0, 0, 0, 0, 0]);
+                out.push(vec![0, 0, 0, 0, 0, 0, 0]);
             }
             return out;
         }
@@ -324,14 +371,14 @@ async fn h2_session(ctx: &Ctx, sni: Option<String>, reqs: &[Req], c: &Canaries) 
         }
         .await;
         tokio::time::sleep(Duration::from_millis(40)).await;
-        let (s, ch, w, n) = match res {
+        let (s, ch, w, nh, n) = match res {
             Some((s, hs)) => {
-                let (a, b2, w) = classify(s, &hs);
-                (a, b2, w, 1)
+                let (a, b2, w, nh) = classify(s, &hs);
+                (a, b2, w, nh, 1)
             }
-            None => (0, 0, 0, 0),
+            None => (0, 0, 0, 0, 0),
         };
-        out.push(vec![s, ch, w, (c.tcp_count.load(Ordering::SeqCst) - t0) as u128, (c.udp_count.load(Ordering::SeqCst) - u0) as u128, n]);
+        out.push(vec![s, ch, w, (c.tcp_count.load(Ordering::SeqCst) - t0) as u128, (c.udp_count.load(Ordering::SeqCst) - u0) as u128, nh, n]);
     }
     drop(send);
     driver.abort();
